@@ -87,7 +87,7 @@ class _ConstTime:
 
 
 OPS_A = ["gr", "gd", "ctx", "ctxfail", "ctxfail-release", "clear"]
-OPS_B = ["set", "get", "failget", "quit"]
+OPS_B = ["set", "get", "failget", "quit", "shutdown", "version"]
 
 
 def run_case(case):
@@ -119,7 +119,7 @@ def run_case(case):
         else:
             clock = Clock()
             net = FakeNet()
-            srv = McServer(clock)
+            srv = McServer(clock, shutdown_enabled=True)
             net.add_server(("mc1", 11211), srv)
             srv.refuse[b"toolarge"] = "too-large"          # a store the server refuses (SERVER_ERROR) although the connection is fine
             if harness == "h":
@@ -243,6 +243,10 @@ def run_case(case):
                                     pass
                             elif op == "quit":
                                 pc.quit()
+                            elif op == "shutdown":
+                                pc.shutdown()
+                            elif op == "version":
+                                pc.version()
                             elif op == "close":
                                 pc.close()
                     except RuntimeError as e:
@@ -393,6 +397,10 @@ def bounded_cases(tier, seed):
         confs.append({"harness": "b", "threads": [["setrefused"], ["set"]], "max_size": ms, "two_in_quick": ms == 1})
         confs.append({"harness": "b", "threads": [["setmanyrefused"], ["get"]], "max_size": ms})
     confs.append({"harness": "b", "threads": [["setrefused"], ["setmanyrefused"]], "max_size": 2})
+    # the other commands: shutdown (the server lets it pass), version - next to ordinary calls, with idle connections around
+    for ms in (2, 3):
+        confs.append({"harness": "b", "threads": [["set", "shutdown"], ["version", "version"]], "max_size": ms, "two_in_quick": ms == 2})
+        confs.append({"harness": "b", "threads": [["get", "get"], ["set", "shutdown"], ["version"]], "max_size": ms})
     # a call aborted by an interruption inside recv while the other thread is inside the pool
     for ms in (1, 2):
         confs.append({"harness": "b", "threads": [["get"], ["get"]], "max_size": ms, "interrupt_recv": [0], "two_in_quick": True})
